@@ -39,9 +39,11 @@ theorem gencls_torque (D Id Iq Pe Qe XadIfd a delta fn omega psid psiq ra te tm 
   have e4 : xq * Iq = vd := by linarith
   have e5 : xq * Id = vf - vq := by linarith
   have e6 : te = psid * Iq - psiq * Id := by linarith
-  rw [e6, e2, e3, ← e1]
+  rw [e6, e2, e3]
   have : (vq * Iq - -vd * Id) * xq = vq * (xq * Iq) + vd * (xq * Id) := by ring
-  rw [this, e4, e5]; ring
+  rw [this, e4, e5]
+  have e1' : vf * v * Real.sin (delta - a) = vf * vd := by rw [e1]; ring
+  rw [e1']; ring
 
 /-- **… and obeys the swing equation**: `δ̇ = 2π f (ω − 1)`, `M ω̇ = tm0 − te − D (ω − 1)`; the electrical
 power delivered to the bus equals `te` (no resistance), and the field voltage is the constant `vf0` -/
